@@ -26,6 +26,9 @@ def run(ctx: Ctx):
     from .common import no_shared_writes
 
     no_shared_writes(ctx, "no-shared-write")
+    from .common import generic_lints
+
+    generic_lints(ctx)
 
 
 def formula(ctx: Ctx):
